@@ -26,6 +26,20 @@ def mtUnsafe : List String :=
    "gcvt", "crypt", "ptsname", "nl_langinfo", "wcstombs", "wctomb", "mblen", "mbtowc", "strsignal", "catgets",
    "getc_unlocked", "putc_unlocked", "getchar_unlocked", "putchar_unlocked", "system", "l64a", "getlogin"]
 
+/-- The fatal-error function pointer — the one static object that is written — is written by
+exactly one function, the setter: no other library code (in particular not the path that
+*calls* the handler on an allocation failure) ever changes which handler is installed, so
+a failure handled on one thread cannot change what a later failure does on any thread. -/
+theorem C14_writers :
+    staticWriters = [("util.c", "__libconfig_fatal_error_func", "libconfig_set_fatal_error_func")] := by decide
+
+/-- …and the setter is reached from the public `config_set_fatal_error_func` and — the known
+finding `C14:cpp-constructor-writes-global-handler` — from every C++ `Config` constructor; from
+nowhere else. -/
+theorem C14_setter_calls : ∀ c ∈ handlerSetterCalls,
+    c = ("libconfig.c", "config_set_fatal_error_func", "libconfig_set_fatal_error_func") ∨
+    c = ("libconfigcpp.c++", "Config::Config", "config_set_fatal_error_func") := by decide
+
 theorem C14_imports : ∀ f ∈ imports, f ∉ mtUnsafe := by decide +kernel
 
 theorem C14_inventory_complete : inventoryErrors = [] := by decide
